@@ -79,6 +79,29 @@ func checkC15(r *Run) {
 					"FileRef.Path is set to a value that is "+cl.String()+" ("+valStr(st.Val)+"): later host paths built from it can leave the export root")
 			case isUfsType(fa.X.Type(), "fServer") && fieldName(fa.X.Type(), fa.Field) == "Base":
 				r.Check(fn.Name() == "NewServer", "path-invariant", fnName(fn)+": fServer.Base written only by the constructor", st.Pos(), "the export root is reassigned after construction")
+				// the root is stored cleaned: filepath.Join(Base, x) is confined to Base only if Base is not empty — Join
+				// drops an empty first element, so Join("", "/etc") is "/etc" (the host root) — and Clean never returns ""
+				if fn.Name() == "NewServer" {
+					okClean := false
+					for _, alt := range phiAlternatives(st.Val, 2) {
+						c, ok := alt.(*ssa.Call)
+						if ok && (calleeName(&c.Call) == "path/filepath.Clean" || (calleeName(&c.Call) == "path/filepath.Abs")) {
+							okClean = true
+						} else if ex, isEx := alt.(*ssa.Extract); isEx {
+							if c2, ok := ex.Tuple.(*ssa.Call); ok && calleeName(&c2.Call) == "path/filepath.Abs" {
+								okClean = true
+							} else {
+								okClean = false
+								break
+							}
+						} else {
+							okClean = false
+							break
+						}
+					}
+					r.Check(okClean, "path-invariant", "NewServer: the export root is stored cleaned (never empty)", st.Pos(),
+						"the export root is stored as given: an empty root makes filepath.Join(Base, x) drop it, so every path resolves against the host's root directory")
+				}
 			}
 		})
 	}
